@@ -777,7 +777,7 @@ def main():
         t_stream = time.time()
         for k, r in enumerate(rules):
             check_zone(verdict, st, o, r, rng, qyears, k, tier)
-            if tier == "quick" and time.time() - t_stream > 100:
+            if tier == "quick" and time.time() - t_stream > 45:
                 st.bump("zone_stream_cut_by_budget_at", k)
                 break
         # ---- one zone object shared by several threads
